@@ -153,8 +153,10 @@ pub fn check_order_t<T: QEl>(c: &OrderCase) -> CheckResult {
                 sorted
             );
         }
+        // "(N-1)q integral": required only when the IEEE product and the exact rational product
+        // agree on it (C01 accepts either reading of the documented index)
         let p = qs[j] * (n - 1) as f64;
-        if p == p.floor() {
+        if p == p.floor() && !boundary_ambiguous(qs[j], n) {
             for si in 1..5 {
                 ensure!(
                     res[si][j].eqv(&lo),
@@ -366,7 +368,7 @@ fn enum_perms(ctx: &Ctx, max_n: usize) {
 
 pub fn run_c19(ctx: &Ctx) {
     let t = ctx.tier();
-    enum_perms(ctx, t.pick(6, 8));
+    enum_perms(ctx, t.pick(7, 8));
     ctx.run_proptest("order", t.pick(20_000, 700_000), order_strategy(t.pick(40, 200), t == Tier::Thorough), &check_order);
 }
 
